@@ -317,6 +317,30 @@ pub fn c04(args: &Args) -> Report {
             if steps < 90 && s == (i as usize * 7) % steps.max(1) {
                 eng.reopen(false);
             }
+            // an event sized so that it ends exactly at the end of the backing file (a completely used map: the end
+            // marker equals the file length), and a reopen at that very moment
+            if debug && !small && i % 3 == 1 && s == steps / 2 && !eng.aborted {
+                use std::os::unix::fs::FileExt;
+                let mut sized: Option<Rc<Ev>> = None;
+                if let Ok(f) = std::fs::File::open(eng.dir.join("event.map")) {
+                    let mut hdr = [0u8; 8];
+                    if f.read_exact_at(&mut hdr, 0).is_ok() {
+                        let end = u64::from_le_bytes(hdr) as usize;
+                        let flen = f.metadata().map(|m| m.len() as usize).unwrap_or(0);
+                        let start = (end + 7) / 8 * 8;
+                        let mk = |rng: &mut Rng, clen: usize| Ev::new(SemEvent { id: rng.arr32(), pubkey: author(2), sig: [0x51; 64], kind: 1, created_at: 777, tags: vec![], content: "f".repeat(clen) });
+                        if let Some(base) = mk(&mut rng, 0) {
+                            let target = if flen > start + base.bytes.len() { flen } else { flen + chunk };
+                            sized = mk(&mut rng, target - start - base.bytes.len());
+                        }
+                    }
+                }
+                if let Some(ev) = sized {
+                    let _ = eng.store(&ev);
+                    eng.rep.count("reopens_on_a_completely_used_map");
+                    eng.reopen(false);
+                }
+            }
             one_step(&mut eng, &mut rng, &p, &mix);
         }
         if !eng.aborted {
@@ -339,6 +363,9 @@ pub fn c04(args: &Args) -> Report {
         rep.require("offset_rereads", "no offset re-read");
         if !small {
             rep.require("histories_continued_above_a_large_offset", "no history continued above a large offset");
+            if debug {
+                rep.require("reopens_on_a_completely_used_map", "no reopen happened on a completely used map");
+            }
         }
     }
     rep
@@ -1290,6 +1317,29 @@ pub fn c16(args: &Args) -> Report {
                 }
             }
             if s == pos2 && !eng.aborted {
+                // in every third history this reopen / rebuild meets a completely used map: an event sized to end
+                // exactly at the end of the backing file is stored first (the end marker equals the file length)
+                if is_debug_build() && i % 3 == 1 {
+                    use std::os::unix::fs::FileExt;
+                    let mut sized: Option<Rc<Ev>> = None;
+                    if let Ok(f) = std::fs::File::open(eng.dir.join("event.map")) {
+                        let mut hdr = [0u8; 8];
+                        if f.read_exact_at(&mut hdr, 0).is_ok() {
+                            let end = u64::from_le_bytes(hdr) as usize;
+                            let flen = f.metadata().map(|m| m.len() as usize).unwrap_or(0);
+                            let start = (end + 7) / 8 * 8;
+                            let mk = |rng: &mut Rng, clen: usize| Ev::new(SemEvent { id: rng.arr32(), pubkey: author(2), sig: [0x51; 64], kind: 1, created_at: 777, tags: vec![], content: "f".repeat(clen) });
+                            if let Some(base) = mk(&mut rng, 0) {
+                                let target = if flen > start + base.bytes.len() { flen } else { flen + 2048 };
+                                sized = mk(&mut rng, target - start - base.bytes.len());
+                            }
+                        }
+                    }
+                    if let Some(ev) = sized {
+                        let _ = eng.store(&ev);
+                        eng.rep.count("lifecycle_steps_on_a_completely_used_map");
+                    }
+                }
                 if two_rebuilds {
                     eng.rebuild();
                 } else {
